@@ -112,6 +112,13 @@ func (p Precompile) Run(evm *vm.EVM, contract *vm.Contract, readOnly bool) (bz [
 		method.Type == abi.Receive,
 		method.Name == DepositMethod:
 		// WERC20 transactions
+		// The fallback and receive entries have no method name, so RunSetup's write protection
+		// (readOnly && isTransaction(name)) does not cover them: a deposit is a state change and
+		// must not run in a read-only frame (STATICCALL, or CALLCODE / DELEGATECALL, which carry a
+		// value that was never transferred to the precompile).
+		if readOnly {
+			return nil, vm.ErrWriteProtection
+		}
 		bz, err = p.Deposit(ctx, contract, stateDB, method, args)
 	case method.Name == WithdrawMethod:
 		// Withdraw Method
